@@ -9,6 +9,7 @@ import (
 	"verifharness/internal/drv"
 	"verifharness/internal/report"
 	"verifharness/internal/routing"
+	"verifharness/internal/serve"
 )
 
 type checkFn func(run *report.Run) error
@@ -62,6 +63,8 @@ func main() {
 		os.Exit(run.Finish())
 	case "routing-diff":
 		routingDiff(os.Args[2:])
+	case "serve-diff":
+		serveDiff(os.Args[2:])
 	default:
 		fmt.Fprintln(os.Stderr, "unknown command", os.Args[1])
 		os.Exit(2)
@@ -102,4 +105,46 @@ func routingDiff(args []string) {
 		}
 	}
 	fmt.Printf("cases=%d disagreements=%d tags=%v specs=%v skipped=%d\n", len(cases), dis, tags, specs, routing.SkippedBuild)
+}
+
+func serveDiff(args []string) {
+	fs := flag.NewFlagSet("serve-diff", flag.ExitOnError)
+	seed := fs.Uint64("seed", 1, "PRNG seed")
+	n := fs.Int("n", 200, "number of histories")
+	router := fs.String("router", "curly", "curly|jsr")
+	panics := fs.Int("panic", 3, "panic percentage per act")
+	show := fs.Int("show", 3, "disagreements to print")
+	fs.Parse(args)
+	hs, err := serve.Run(*seed, *n, serve.GenOpts{Router: *router, PanicPct: *panics}, 5)
+	if err != nil {
+		fmt.Fprintln(os.Stderr, err)
+		os.Exit(2)
+	}
+	total, dis := 0, 0
+	stats := map[string]int{}
+	for _, h := range hs {
+		for i := range h.Reqs {
+			total++
+			blank := h.BlankBody(i)
+			a, b := h.Real[i].Canon(blank), h.Model[i].Canon(blank)
+			stats["entry:"+h.Reqs[i].Entry]++
+			if h.Real[i].Coded {
+				stats["coded"]++
+			}
+			if h.Real[i].Escaped != nil {
+				stats["escaped"]++
+			}
+			if h.Real[i].Recov > 0 {
+				stats["recovered"]++
+			}
+			stats[fmt.Sprintf("status:%d", h.Real[i].Status)]++
+			if a != b {
+				dis++
+				if dis <= *show {
+					fmt.Printf("DISAGREE req %d entry=%s ae=%q prior=%q path=%q method=%s\n real : %.1500s\n model: %.1500s\n cfg: %.3000s\n", i, h.Reqs[i].Entry, h.Reqs[i].AE, h.Reqs[i].Prior, h.Reqs[i].Req.Path, h.Reqs[i].Req.Method, a, b, h.Cfg.Sx().String())
+				}
+			}
+		}
+	}
+	fmt.Printf("requests=%d disagreements=%d stats=%v skipped=%d\n", total, dis, stats, serve.SkippedBuild)
 }
